@@ -87,7 +87,7 @@ func VH_C20_AccountUpdate_sym() {
 	am := &YAMLAccountManager{accountDir: "/cfg/Users", accounts: map[string]hotline.Account{"bob": c20Account("bob")}}
 	err := am.Update(c20Account("bob"), "bob")
 	vAssert("update_ok", err == nil)
-	newDoc := vfsLog[len(vfsLog)-1].data
+	newDoc := c20LastWritten()
 	s := c20Crash(initial)
 	i := s.find("/cfg/Users/bob.yaml")
 	vAssert("account_file_exists_at_crash", i >= 0)
@@ -106,7 +106,7 @@ func VH_C20_AccountRename_sym() {
 	am := &YAMLAccountManager{accountDir: "/cfg/Users", accounts: map[string]hotline.Account{"bob": c20Account("bob")}}
 	err := am.Update(c20Account("bob"), "rob")
 	vAssert("rename_ok", err == nil)
-	newDoc := vfsLog[len(vfsLog)-1].data
+	newDoc := c20LastWritten()
 	s := c20Crash(initial)
 	i, j := s.find("/cfg/Users/bob.yaml"), s.find("/cfg/Users/rob.yaml")
 	vAssert("rename_exactly_one_file_at_crash", (i >= 0) != (j >= 0))
@@ -125,7 +125,7 @@ func VH_C20_AccountCreate_sym() {
 	am := &YAMLAccountManager{accountDir: "/cfg/Users", accounts: map[string]hotline.Account{}}
 	err := am.Create(c20Account("eve"))
 	vAssert("create_ok", err == nil)
-	newDoc := vfsLog[len(vfsLog)-1].data
+	newDoc := c20LastWritten()
 	s := c20Crash(initial)
 	if i := s.find("/cfg/Users/eve.yaml"); i >= 0 {
 		vAssertEqBytes("account_create_absent_or_complete_at_crash", s.data[i], newDoc)
@@ -161,11 +161,22 @@ func VH_C20_BanAdd_sym() {
 	bf := &BanFile{filePath: "/cfg/Banlist.yaml", banList: map[string]*time.Time{}}
 	err := bf.Add("10.0.0.9", nil)
 	vAssert("add_ok", err == nil)
-	newDoc := vfsLog[len(vfsLog)-1].data
+	newDoc := c20LastWritten()
 	s := c20Crash(initial)
 	i := s.find("/cfg/Banlist.yaml")
 	vAssert("ban_file_exists_at_crash", i >= 0)
 	if i >= 0 {
 		vAssertEqBytesEither("ban_old_or_new_at_crash", s.data[i], old, newDoc)
 	}
+}
+
+// the document most recently written by the update (to the live file or to its temporary file)
+func c20LastWritten() []byte {
+	var d []byte
+	for _, op := range vfsLog {
+		if op.kind == "write" || op.kind == "append" {
+			d = op.data
+		}
+	}
+	return d
 }
